@@ -133,7 +133,7 @@ func main() {
 
 		scale := int64(1)
 		if mon.RaceEnabled {
-			scale = 8 // the race build only repeats the hostile families, with smaller counts
+			scale = c.N(8, 20) // the race build only repeats the hostile families, with smaller counts
 		}
 
 		if !mon.RaceEnabled {
